@@ -256,3 +256,9 @@ pub fn transform_varblocks(
         );
     }
 }
+
+/// Verification only: the generic inverse transform of one varblock.
+#[cfg(jxl_oxide_verif)]
+pub fn verif_transform(coeff: &mut MutableSubgrid<'_>, dct_select: TransformType) {
+    transform(coeff, dct_select)
+}
